@@ -383,6 +383,7 @@ Proof.
   intros signer date msgid rb sb m k Hk He.
   destruct (signed_render_sound signer date msgid rb sb m k Hk) as [_ Hn].
   unfold write_to_signed in *. set (z := resolve date msgid rb m) in *.
+  destruct (err (prerender z)); [cbn [s_err] in He; discriminate|].
   destruct (sign_input z) as [inp|]; cbn [s_err s_out s_n] in *; [|discriminate].
   destruct Hk as [Ha Hf0].
   destruct (write_resolved_signed_spec z sb (signer inp) (mw_init k) (Inv_init k Ha Hf0)) as ((_ & _ & _ & HF) & _).
